@@ -61,7 +61,14 @@ type Spec struct {
 	Mod     []int    `json:"mod"`      // module index per file
 	ModDirs []string `json:"mod_dirs"` // directory of each module relative to the workspace root ("." = the root itself)
 	Shadow  int      `json:"shadow"`   // module index that supplies its own google/protobuf/any.proto, -1 = none
+	// ShadowWkts says which well-known types module Shadow supplies (bit set of shadowAny, shadowTimestamp); 0 = any.proto only.
+	ShadowWkts int `json:"shadow_wkts,omitempty"`
 }
+
+const (
+	shadowAny       = 1
+	shadowTimestamp = 2
+)
 
 // modName is the configured full name of module m.
 func modName(dir string) string {
@@ -220,6 +227,19 @@ message Any {
 }
 `
 
+const shadowTimestampText = `syntax = "proto3";
+
+package google.protobuf;
+
+// A copy of Timestamp supplied by the workspace itself.
+message Timestamp {
+  int64 seconds = 1;
+  int32 nanos = 2;
+  // Not present in the real Timestamp.
+  string zone = 3;
+}
+`
+
 // File is one .proto file of a rendered workspace.
 type File struct {
 	Path   string // module-relative path = name in the image
@@ -259,7 +279,12 @@ func (s *Spec) Render() *World {
 		w.Files = append(w.Files, File{Path: relPaths[i], Module: s.Mod[i], Ext: joinDir(s.ModDirs[s.Mod[i]], relPaths[i]), Text: s.renderFile(i), Index: i})
 	}
 	if s.Shadow >= 0 {
-		w.Files = append(w.Files, File{Path: wktAny, Module: s.Shadow, Ext: joinDir(s.ModDirs[s.Shadow], wktAny), Text: shadowAnyText, Index: -1})
+		if s.ShadowWkts == 0 || s.ShadowWkts&shadowAny != 0 {
+			w.Files = append(w.Files, File{Path: wktAny, Module: s.Shadow, Ext: joinDir(s.ModDirs[s.Shadow], wktAny), Text: shadowAnyText, Index: -1})
+		}
+		if s.ShadowWkts&shadowTimestamp != 0 {
+			w.Files = append(w.Files, File{Path: wktTimestamp, Module: s.Shadow, Ext: joinDir(s.ModDirs[s.Shadow], wktTimestamp), Text: shadowTimestampText, Index: -1})
+		}
 	}
 	return w
 }
